@@ -93,7 +93,12 @@ RULE = ('abstract hit lists (1-8 hits; all nine sign combinations of subject/que
         "step's input and with the first-principles oracle. Round 5: free-text and numeric columns in non-final position left "
         'EMPTY for some hits (the full per-hit column dict, key set and values, is compared); the same table stored as utf-8-sig, '
         'latin-1 (non-ASCII word in a title column / Infernal description), utf-16, utf-16-le, utf-8 and read with the matching '
-        'encoding= from a path, a binary handle and a BytesIO, in every rendering')
+        'encoding= from a path, a binary handle and a BytesIO, in every rendering. Round 7: files of several blocks each with its own '
+        'header line (BLAST 7 reports with different "# Fields:" selections, repeated MMseqs2 name rows, concatenated Infernal tables); '
+        'every column of every table next to the required ones with signed / zero / padded / exponent / inf / nan / non-numeric / empty '
+        'tokens; free text holding the other layouts\' separators; outfmt= and "# Fields:" written with other blanks; line soups (comment, '
+        'blank, name-row, Fields, ruler lines and one boundary line anywhere, blanks around lines); A, B, A+B concatenation histories; '
+        'about 1 500 literals handed to float() and int(). Cases are dealt out over the shards by size.')
 TRUSTED = ['CPython int()/float()/str.split/strip/startswith and text-mode line iteration (modelled, compared on every case)',
            'float values: the model keeps the decimal literal; the harness converts it with fractions.Fraction and compares bit patterns',
            'modelled: sugar/_io/tab/core.py _headers_from_fmtstrings, read_tabular; the blast/mmseqs/infernal reader wrappers; '
